@@ -22,9 +22,9 @@ type c04Setup struct {
 	cleanup func()
 }
 
-func c04Prepare(caseID int, idx int, behaviour, proto, launch string, managed bool) *c04Setup {
+func c04Prepare(caseID int, idx int, behaviour, proto, launch string, managed, preKill bool) *c04Setup {
 	s := &c04Setup{}
-	s.obs.Behaviour = behaviour
+	s.obs.Behaviour, s.obs.PreKill = behaviour, preKill
 	wire := proto
 	mux := false
 	if proto == "grpcmux" {
@@ -70,6 +70,9 @@ func c04Prepare(caseID int, idx int, behaviour, proto, launch string, managed bo
 	l := prepare(caseID, fmt.Sprintf("k%d", idx), pcfg, cfg, ln)
 	s.l = l
 	s.killer = l.Client
+	if preKill {
+		within(20*time.Second, l.Client.Kill)
+	}
 	_, err := l.Client.Start()
 	if behaviour == "failed-handshake" || behaviour == "start-timeout-partial-line" {
 		if err == nil {
@@ -174,7 +177,7 @@ func TestC04(t *testing.T) {
 		if p.Pattern == "cleanup" {
 			var ss []*c04Setup
 			for i, b := range p.Behaviours {
-				ss = append(ss, c04Prepare(c.ID, i, b, p.Proto, p.Launch, true))
+				ss = append(ss, c04Prepare(c.ID, i, b, p.Proto, p.Launch, true, i < len(p.PreKill) && p.PreKill[i]))
 			}
 			H := 20 * time.Second
 			for _, b := range p.Behaviours {
@@ -196,7 +199,7 @@ func TestC04(t *testing.T) {
 			e.Ret("h", "CleanupClients", o)
 			return
 		}
-		s := c04Prepare(c.ID, 0, p.Behaviour, p.Proto, p.Launch, false)
+		s := c04Prepare(c.ID, 0, p.Behaviour, p.Proto, p.Launch, false, false)
 		if s.obs.SetupErr != "" {
 			s.l.hardKill()
 			o.Clients = []spec.C04Client{s.obs}
